@@ -18,6 +18,7 @@ from __future__ import annotations
 import ast
 
 from .. import asetab
+from ..normalize import flat
 from ..loader import AnalysisError, ClassInfo, FuncInfo, Program, calls_in, norm, walk_no_nested
 from ..report import Ledger
 from ..sym import DIFFERENT, EQUAL, Translator, Unsupported, Vocabulary, mat3, same, sp
@@ -114,7 +115,9 @@ def _rotation_scipy_idiom(prog: Program, L: Ledger, f: FuncInfo, inl) -> bool:
     return True
 
 
-def _translate(f: FuncInfo, table=None, binds=None, extra_hooks=()):
+def _translate(f: FuncInfo, table=None, binds=None, extra_hooks=(), prog=None):
+    if prog is not None:
+        f = flat(prog, f, f.cls)
     vocab = Vocabulary(table or {}, default_assumptions={"real": True})
     for k, v in (binds or {}).items():
         vocab.bind(k, v)
@@ -166,7 +169,7 @@ def run(prog: Program, L: Ledger) -> None:
     # ------------------------------------------------------------------ Box
     box = prog.cls("Box")
     f = box.methods["calculate"]
-    t, v, dr, ret = _translate(f, {"self.step_size": ("s", {"positive": True})})
+    t, v, dr, ret = _translate(f, {"self.step_size": ("s", {"positive": True})}, prog=prog)
     okb = len(dr.draws) == 1 and dr.draws[0]["kind"] == "uniform" and _range_is(dr.draws[0], -v.sym("s", positive=True), v.sym("s", positive=True)) and dr.draws[0]["n"] == 3
     shape_ok = isinstance(ret, sp.MatrixBase) and ret.shape == (1, 3) and all(ret[0, i] == dr.draws[0]["syms"][i] for i in range(3)) if dr.draws and dr.draws[0]["n"] == 3 else False
     L.check(okb and shape_ok, "G1", "Box.calculate", f.where,
@@ -179,7 +182,7 @@ def run(prog: Program, L: Ledger) -> None:
         f = ci.methods.get("calculate")
         if f is None:
             raise AnalysisError(f"{name}.calculate missing")
-        t, v, dr, ret = _translate(f, {"self.step_size": ("s", {"positive": True})})
+        t, v, dr, ret = _translate(f, {"self.step_size": ("s", {"positive": True})}, prog=prog)
         ss = v.sym("s", positive=True)
         if not (isinstance(ret, sp.MatrixBase) and ret.shape == (1, 3)):
             raise AnalysisError(f"{name}.calculate: return value is not a (1,3) row")
@@ -216,7 +219,7 @@ def run(prog: Program, L: Ledger) -> None:
 
     # ------------------------------------------------------------------ Translation
     tr_ci = prog.cls("Translation")
-    f = tr_ci.methods["calculate"]
+    f = flat(prog, tr_ci.methods["calculate"], tr_ci)
     rets = [st for st in f.body() if isinstance(st, ast.Return)]
     if len(rets) != 1:
         raise AnalysisError("Translation.calculate: single return expected")
@@ -239,7 +242,7 @@ def run(prog: Program, L: Ledger) -> None:
 
     # ------------------------------------------------------------------ Rotation
     rot = prog.cls("Rotation")
-    f = rot.methods["calculate"]
+    f = flat(prog, rot.methods["calculate"], rot)
     inl = Inliner(f.node)
     er = [c for c in calls_in(f.node) if isinstance(c.func, ast.Attribute) and c.func.attr in ("euler_rotate", "rotate")]
     if not er and _rotation_scipy_idiom(prog, L, f, inl):
@@ -254,8 +257,8 @@ def run(prog: Program, L: Ledger) -> None:
     r0 = recv
     while isinstance(r0, ast.Call) and norm(r0.func) == "cast" and len(r0.args) == 2:
         r0 = r0.args[1]
-    copy_ok = isinstance(r0, ast.Subscript) and norm(r0.value) in ("context.atoms", "atoms") and norm(r0.slice) == "context._moving_indices" or norm(r0) in ("context.atoms[context._moving_indices].copy()",)
-    if isinstance(r0, ast.Subscript) and norm(inl.inline(r0.value)) == "context.atoms" and norm(r0.slice) == "context._moving_indices":
+    copy_ok = norm(r0) in ("context.atoms[context._moving_indices].copy()",)
+    if isinstance(r0, ast.Subscript) and norm(inl.inline(r0.value)) == "context.atoms" and norm(inl.inline(r0.slice)) == "context._moving_indices":
         copy_ok = True
     L.check(copy_ok, "G3", "Rotation.calculate:copy", f.where, f"the rotated object is `{norm(r0)[:80]}`, not a copy of the moving sub-structure atoms[moving_indices]", "the live atoms are rotated in place / other atoms move", norm(r0)[:100])
     kws = {k.arg: k.value for k in call.keywords}
@@ -272,7 +275,15 @@ def run(prog: Program, L: Ledger) -> None:
         tt.run_block([st for st in pre if isinstance(st, ast.Assign) and "rng" in norm(st.value)])
     except Unsupported as exc:
         raise AnalysisError(f"Rotation.calculate: {exc}") from exc
-    angles = [tt.tr(a) for a in call.args[:3]]
+    angles = []
+    for a in call.args[:3]:
+        if isinstance(a, ast.Starred):
+            sv = tt.tr(a.value)
+            if not isinstance(sv, (tuple, list)):
+                raise AnalysisError(f"Rotation.calculate: starred Euler angles `{norm(a)}` not a literal-size draw")
+            angles.extend(sv)
+        else:
+            angles.append(tt.tr(a))
     if len(angles) != 3:
         raise AnalysisError("Rotation.calculate: three Euler angles expected")
     for i, a in enumerate(angles):
@@ -292,7 +303,8 @@ def run(prog: Program, L: Ledger) -> None:
             L.ok("G3", f"Rotation.calculate:{nm}", f.where)
     rets = [st for st in f.body() if isinstance(st, ast.Return)]
     rv = rets[0].value
-    okr = isinstance(rv, ast.BinOp) and isinstance(rv.op, ast.Sub) and norm(rv.left).endswith(".positions") and norm(inl.inline(rv.left.value)) == norm(recv) and norm(inl.inline(rv.right)).replace("atoms.positions", "context.atoms.positions").replace("context.context.", "context.") in ("context.atoms.positions[context._moving_indices]",)
+    rv = inl.inline(rv) if isinstance(rv, ast.Name) else rv
+    okr = isinstance(rv, ast.BinOp) and isinstance(rv.op, ast.Sub) and norm(rv.left).endswith(".positions") and norm(inl.inline(rv.left.value)) == norm(recv) and norm(inl.inline(rv.right)) in ("context.atoms.positions[context._moving_indices]", "context.atoms.get_positions()[context._moving_indices]")
     L.check(okr, "G3", "Rotation.calculate:difference", f.where, f"returned `{norm(rv)[:100]}` is not rotated − original positions of the same index set", "atoms of the group are displaced inconsistently", norm(rv)[:120])
 
     return _after_rotation(prog, L, s)
@@ -303,9 +315,9 @@ def _after_rotation(prog: Program, L: Ledger, s) -> None:
 
     # ------------------------------------------------------------------ TranslationRotation
     trr = prog.cls("TranslationRotation")
-    f = trr.methods["calculate"]
+    f = flat(prog, trr.methods["calculate"], trr)
     rets = [st for st in f.body() if isinstance(st, ast.Return)]
-    okc = len(rets) == 1 and norm(rets[0].value) in ("self.translation.calculate(context) + self.rotation.calculate(context)", "self.rotation.calculate(context) + self.translation.calculate(context)")
+    okc = len(rets) == 1 and norm(Inliner(f.node).inline(rets[0].value)) in ("self.translation.calculate(context) + self.rotation.calculate(context)", "self.rotation.calculate(context) + self.translation.calculate(context)")
     L.check(okc, "G3", "TranslationRotation.calculate", f.where, "not the sum of its translation and rotation parts", "", norm(rets[0].value) if rets else "")
 
     # ------------------------------------------------------------------ deformations
@@ -327,7 +339,7 @@ def _after_rotation(prog: Program, L: Ledger, s) -> None:
                 return K.applyfunc(lambda x: 1 - x)
             return None
 
-        t, v, dr, ret = _translate(f, {"self.max_value": ("mval", {"positive": True})}, binds={"self.mask": K}, extra_hooks=(expm_hook,))
+        t, v, dr, ret = _translate(f, {"self.max_value": ("mval", {"positive": True})}, binds={"self.mask": K}, extra_hooks=(expm_hook,), prog=prog)
         mv = v.sym("mval", positive=True)
         if not (isinstance(ret, sp.MatrixBase) and ret.shape == (3, 3)):
             raise AnalysisError(f"{name}.calculate: result is not a 3×3 matrix")
@@ -374,14 +386,15 @@ def _after_rotation(prog: Program, L: Ledger, s) -> None:
 
     # ------------------------------------------------------------------ composite
     co = prog.cls("CompositeOperation")
-    f = co.methods["calculate"]
+    f = flat(prog, co.methods["calculate"], co)
     rets = [st for st in f.body() if isinstance(st, ast.Return)]
     okc = False
-    if len(rets) == 1 and isinstance(rets[0].value, ast.Call) and norm(rets[0].value.func) == "np.sum":
-        c = rets[0].value
+    rv = Inliner(f.node).inline(rets[0].value) if len(rets) == 1 else None
+    if rv is not None and isinstance(rv, ast.Call) and norm(rv.func) == "np.sum":
+        c = rv
         kws = {k.arg: norm(k.value) for k in c.keywords}
         a = c.args[0] if c.args else None
         if isinstance(a, (ast.ListComp, ast.GeneratorExp)) and len(a.generators) == 1 and not a.generators[0].ifs:
             g = a.generators[0]
             okc = norm(g.iter) == "self.operations" and norm(a.elt) == f"{norm(g.target)}.calculate(context)" and kws.get("axis") == "0" and isinstance(a, ast.ListComp)
-    L.check(okc, "G5", "CompositeOperation.calculate", f.where, "not np.sum([op.calculate(context) for op in self.operations], axis=0)", "a part is skipped, applied twice or summed over the wrong axis", norm(rets[0].value)[:120] if rets else "")
+    L.check(okc, "G5", "CompositeOperation.calculate", f.where, "not np.sum([op.calculate(context) for op in self.operations], axis=0)", "a part is skipped, applied twice or summed over the wrong axis", norm(rv)[:120] if rv is not None else "")
